@@ -274,7 +274,7 @@ def run_family(ctx, cases, prop, focus="history"):
         res.exhaustive = True
     else:
         res.rule = "replay"
-    from multiprocessing import Pool
+    from .common import Pool
     with Pool(16) as pool:
         traces = pool.map(run_history, [{"texts": c["texts"], "history": c["history"]} for c in cases], chunksize=100)
     events = [{"texts": t["texts"], "steps": t["steps"]} for t in traces]
